@@ -129,7 +129,11 @@ func init() {
 		g.AllocLimit = 768 << 20
 		g.StepLimitIsViolation = true
 		g.MaxSteps = 400_000 // the templates' inputs are at most a few hundred bytes
-		g.Desc = "C09 obligations on: " + h.Desc
+		d := h.Desc
+		if i := strings.Index(d, "; every automatic panic obligation"); i > 0 {
+			d = d[:i]
+		}
+		g.Desc = "allocation bound at every make() and step budget per path, on the input template: " + d
 		c09 = append(c09, g)
 	}
 	c09 = append(c09, Harness{Pkg: "jpeg2000", Fn: "VerifC09TileAssembler", AllocCut: 64, AllocLimit: 768 << 20, StepLimitIsViolation: true,
